@@ -66,3 +66,41 @@ def sum_to(n):
         i += 1
         s += i
     return s
+
+
+def div_or_default(a, b):
+    try:
+        return a // b
+    except ZeroDivisionError:
+        return 0
+
+
+def div_or_default_bad(a, b):
+    try:
+        return a // b
+    except ValueError:
+        return 0
+
+
+def restore_after(xs, i):
+    saved = i
+    try:
+        i = i + 1
+        x = xs[i]
+    except IndexError:
+        x = 0 - 1
+    finally:
+        i = saved
+    return (x, i)
+
+
+def restore_after_bad(xs, i):
+    saved = i
+    try:
+        i = i + 1
+        x = xs[i]
+    except IndexError:
+        x = 0 - 1
+    finally:
+        i = saved + 1
+    return (x, i)
